@@ -232,3 +232,108 @@ func (c *Ctx) checkScopePassCoverage(rule, mapField, sliceField, elemType string
 		}
 	}
 }
+
+// checkRegistryPassCoverage: the registry pass ranges over all shards and over every scope of a
+// shard and reports each visited scope unconditionally (direct statement of the inner loop body,
+// not preceded by anything that can skip it).
+func (c *Ctx) checkRegistryPassCoverage(rule, pass, reportMethod string) {
+	fn := c.fn("", "scopeRegistry", pass)
+	fSub, fS := c.field("", "scopeRegistry", "subscopes"), c.field("", "scopeBucket", "s")
+	rep := c.fn("", "scope", reportMethod)
+	if fn == nil || fSub == nil || fS == nil || rep == nil {
+		c.missing(rule, "tally.scopeRegistry."+pass+" / subscopes / scopeBucket.s / scope."+reportMethod)
+		return
+	}
+	key := c.fnKey(fn)
+	c.sawFunc(key)
+	decl := c.funcDecl(fn)
+	info := c.typesInfo(fn)
+	var outer, inner *ast.RangeStmt
+	for _, st := range decl.Body.List {
+		if rs, ok := st.(*ast.RangeStmt); ok && selField(info, rs.X) == fSub {
+			outer = rs
+		}
+	}
+	if outer == nil {
+		c.bad(rule, key, fn.Pos(), "the pass does not range over all registry shards (r.subscopes) at the top level of its body: scopes of some shards are never reported")
+		return
+	}
+	var outerVal types.Object
+	if id, ok := outer.Value.(*ast.Ident); ok {
+		outerVal = info.Defs[id]
+	}
+	for _, st := range outer.Body.List {
+		if rs, ok := st.(*ast.RangeStmt); ok && selField(info, rs.X) == fS {
+			if se, isSel := ast.Unparen(rs.X).(*ast.SelectorExpr); isSel {
+				if id, isId := ast.Unparen(se.X).(*ast.Ident); isId && outerVal != nil && info.Uses[id] == outerVal {
+					inner = rs
+				}
+			}
+		}
+	}
+	if inner == nil {
+		c.bad(rule, key, outer.Pos(), "inside the shard loop the pass does not range over every scope of the shard (bucket.s)")
+		return
+	}
+	// the outer loop must not be cut short
+	if pos, esc := hasLoopEscape(&ast.BlockStmt{List: nonRange(outer.Body.List)}); esc {
+		c.bad(rule, key, pos, "the shard loop can be left early: later shards are not reported")
+		return
+	}
+	var sObj types.Object
+	if id, ok := inner.Value.(*ast.Ident); ok {
+		sObj = info.Defs[id]
+	}
+	// find the report statement among the direct statements; nothing before it may skip it
+	found := false
+	for _, st := range inner.Body.List {
+		if es, ok := st.(*ast.ExprStmt); ok {
+			if call, isCall := es.X.(*ast.CallExpr); isCall {
+				if se, isSel := call.Fun.(*ast.SelectorExpr); isSel {
+					if id, isId := ast.Unparen(se.X).(*ast.Ident); isId && sObj != nil && info.Uses[id] == sObj {
+						if sel := info.Selections[se]; sel != nil && c.SSA.FuncValue(sel.Obj().(*types.Func)) == rep {
+							found = true
+							break
+						}
+					}
+				}
+			}
+		}
+		// statements before the report: must not be able to leave the iteration
+		if pos, esc := hasLoopEscape(&ast.BlockStmt{List: []ast.Stmt{st}}); esc {
+			c.bad(rule, key, pos, "a scope can be skipped (continue/break/return) before it is reported: what it recorded is not delivered by this pass")
+			return
+		}
+	}
+	if !found {
+		c.bad(rule, key, inner.Pos(), "the visited scope's "+reportMethod+" is not called as an unconditional statement of the per-scope loop")
+		return
+	}
+	// after the report the iteration may remove the scope but must not leave the loop
+	for _, st := range inner.Body.List {
+		ast.Inspect(st, func(n ast.Node) bool {
+			if b, ok := n.(*ast.BranchStmt); ok && (b.Tok == token.BREAK || b.Tok == token.GOTO) {
+				c.bad(rule, key, b.Pos(), "the per-scope loop can be left early: later scopes of the shard are not reported")
+				found = false
+			}
+			if r, ok := n.(*ast.ReturnStmt); ok {
+				c.bad(rule, key, r.Pos(), "the pass returns from inside the per-scope loop")
+				found = false
+			}
+			return true
+		})
+	}
+	if found {
+		c.ok(rule, key, inner.Pos(), "all shards, all scopes of a shard, each reported unconditionally")
+	}
+}
+
+func nonRange(list []ast.Stmt) []ast.Stmt {
+	var out []ast.Stmt
+	for _, s := range list {
+		if _, ok := s.(*ast.RangeStmt); !ok {
+			out = append(out, s)
+		}
+	}
+	return out
+}
